@@ -7,8 +7,10 @@ package scen
 // Harness H1 (message level): one real client (standard IpfsDHT here; the
 // accelerated and the dual client live in c04_fullrt.go / c04_dual.go) whose
 // GET_VALUE requests are answered by scripted responders serving every mixture
-// of valid / stale / invalid / mis-keyed / empty / missing records, in every
-// arrival order, for every quorum. The oracle only uses observables: the
+// of valid / stale / invalid / mis-keyed / empty / missing records - and
+// byte-identical copies of the record the client stores itself, whatever state
+// that record is in (valid, expired before the search, expiring during it) -
+// in every arrival order, for every quorum. The oracle only uses observables: the
 // replies the simulator delivered (and the virtual instant and the state of
 // the output channel at the quiescent point before each delivery), the values
 // that came out of the SearchValue channel / GetValue, and the harness' own
@@ -41,7 +43,7 @@ func init() {
 		Real: []string{"IpfsDHT.GetValue/SearchValue/searchValueQuorum/getValues/processValues (routing.go)", "ProtocolMessenger.GetValue (record key check)", "query.go lookup + follow-up", "records.ValueStore (local record)", "go-libp2p-record NamespacedValidator dispatch"},
 		Stub: []string{"host.Host/network (simhost)", "pb.MessageSender (level A, simnet.Sender)", "remote peers (scripted responders)", "record validator (harness rank validator, time-aware)", "datastore (simds, not parking)"},
 		Faults: []string{"fault_rec_invalid", "fault_rec_miskeyed", "fault_rec_empty", "fault_rpc_error", "fault_dial_fail", "fault_cancel", "time_advance",
-			"probe_found", "probe_notfound", "probe_stream_multi", "probe_search_ended_early", "probe_local_valid", "probe_local_expired", "probe_value_expired_midsearch", "probe_bestknown_checked", "probe_search_goroutine_blocked_after_end_standard"},
+			"probe_found", "probe_notfound", "probe_stream_multi", "probe_search_ended_early", "probe_local_valid", "probe_local_expired", "probe_local_expired_midsearch", "probe_peer_serves_local_bytes_valid", "probe_peer_serves_local_bytes_expired_at_start", "probe_peer_serves_local_bytes_expired_midsearch", "probe_value_expired_midsearch", "probe_bestknown_checked", "probe_search_goroutine_blocked_after_end_standard"},
 	})
 }
 
@@ -57,10 +59,17 @@ const (
 	c04Empty                   // correctly keyed record without a value
 	c04NoRecord                // closer peers only
 	c04ReqError                // the request fails
+	// c04LocalCopy: correctly keyed record carrying exactly the bytes of the
+	// record in the client's own storage (a peer that holds the very record the
+	// node holds: the common case for a node that published or relayed it).
+	// Whether that is a valid record is the validator's business at the delivery
+	// instant, exactly as for every other supplied record: the local record may
+	// be valid, expired before the search started, or expire while it runs.
+	c04LocalCopy
 )
 
 func (k c04Kind) String() string {
-	return [...]string{"valid", "invalid", "miskeyed", "empty", "norecord", "error"}[k]
+	return [...]string{"valid", "invalid", "miskeyed", "empty", "norecord", "error", "localcopy"}[k]
 }
 
 // c04Resp is the script of one responder.
@@ -80,11 +89,17 @@ type c04Cfg struct {
 	Quorum            int  // -1: no Quorum option passed
 	Search            bool // SearchValue (streaming) or GetValue
 	Key, Other        string
-	Local             int // 0 nothing, 1 valid, 2 valid when stored but expired when the search starts, 3 valid and time passes
-	LocalRank         int
-	CancelAt          int
-	Profile           int
-	Ranks             int
+	// Local: 0 nothing, 1 valid, 2 valid when stored but expired when the search
+	// starts, 3 valid and time passes, 4 valid when the search starts and
+	// expiring a few virtual seconds later (while the search may still run)
+	Local     int
+	LocalRank int
+	// LocalCopies: how many responders serve the bytes of the local record
+	// (c04LocalCopy): 0 none, 1 few, 2 about half, 3 all
+	LocalCopies int
+	CancelAt    int
+	Profile     int
+	Ranks       int
 }
 
 // c04Supply is one reply carrying a record that the simulator delivered.
@@ -173,9 +188,10 @@ func c04GenCfg(s *sim.Sim, variant string) c04Cfg {
 	c.Other = fmt.Sprintf("/r/other-%d", n)
 	c.Profile = s.Draw("profile", 3)
 	c.Ranks = s.Range("ranks", 1, 8)
-	c.Local = s.Draw("local", 4)
+	c.Local = s.Draw("local", 5)
 	if c.Local != 0 {
 		c.LocalRank = s.Draw("local-rank", 2*c.Ranks)
+		c.LocalCopies = s.Draw("local-copies", 4)
 	}
 	if s.Chance("cancel", 1, 8) {
 		c.CancelAt = s.Range("cancel-at", 1, 30)
@@ -252,7 +268,14 @@ func (w *c04World) genResponders(peers []*simnet.Peer, knowable []*simnet.Peer) 
 			}
 			x -= wt
 		}
+		// a holder of the very record the node stores itself (whatever client is
+		// under test; whatever the record's state is by now)
+		if w.localVal != nil && c.LocalCopies > 0 && rng.Intn(8) < []int{0, 1, 4, 8}[c.LocalCopies] {
+			r.Kind = c04LocalCopy
+		}
 		switch r.Kind {
+		case c04LocalCopy:
+			r.Val = w.localVal
 		case c04Valid:
 			switch {
 			case len(valids) > 0 && rng.Intn(4) == 0: // byte-identical to another responder's value
@@ -314,7 +337,7 @@ func (w *c04World) replyFor(x *simnet.Peer, r *c04Resp, req *pb.Message) *pb.Mes
 	near := simnet.Nearest(cands, simnet.KadOfKey(string(req.GetKey())), w.cfg.K)
 	resp := &pb.Message{Type: req.GetType(), Key: req.GetKey(), CloserPeers: simnet.ToPB(near)}
 	switch r.Kind {
-	case c04Valid, c04Invalid, c04MisKeyed:
+	case c04Valid, c04Invalid, c04MisKeyed, c04LocalCopy:
 		resp.Record = &recpb.Record{Key: []byte(r.RecKey), Value: append([]byte{}, r.Val...)}
 	case c04Empty:
 		resp.Record = &recpb.Record{Key: []byte(r.RecKey)}
@@ -384,6 +407,17 @@ func (w *c04World) answer(p *sim.Parked, rpc *simnet.RPC) {
 		sup.KeyOK = string(rec.GetKey()) == w.cfg.Key
 		sup.ValidNow = sup.KeyOK && len(rec.GetValue()) > 0 && w.validate(w.cfg.Key, rec.GetValue()) == nil
 		w.supplies = append(w.supplies, sup)
+		if r.Kind == c04LocalCopy {
+			switch {
+			case !w.localStored:
+			case sup.ValidNow:
+				s.Count("probe_peer_serves_local_bytes_valid")
+			case w.localValidAtStart:
+				s.Count("probe_peer_serves_local_bytes_expired_midsearch")
+			default:
+				s.Count("probe_peer_serves_local_bytes_expired_at_start")
+			}
+		}
 		switch {
 		case !sup.KeyOK:
 			s.Count("fault_rec_miskeyed")
@@ -416,9 +450,12 @@ func (w *c04World) putLocal() {
 		d := time.Duration(1+s.Draw("local-ttl-ms", 600000)) * time.Millisecond
 		exp = time.Now().Add(d)
 		wait = d + time.Duration(s.Draw("local-over-ms", 5000))*time.Millisecond
-	default: // time passes, the record stays valid
+	case 3: // time passes, the record stays valid
 		exp = time.Now().Add(2000 * time.Hour)
 		wait = time.Duration(1+s.Draw("local-wait-ms", 600000)) * time.Millisecond
+	default: // valid when the search starts, expires a few virtual seconds into it
+		wait = time.Duration(s.Draw("local-wait-ms", 600000)) * time.Millisecond
+		exp = time.Now().Add(wait + time.Duration(1+s.Draw("local-left-ms", 4000))*time.Millisecond)
 	}
 	w.localVal = rankValue(c.LocalRank, exp, c.Key)
 	val := w.localVal
@@ -645,6 +682,12 @@ func (w *c04World) provenance(val []byte, upto int) (rule, detail string) {
 		if w.localValidAtStart {
 			return "", ""
 		}
+		if invalid != nil {
+			// the same bytes also came from a peer, and the validator rejected them
+			// there too: nobody supplied them validly, whichever way they got in
+			return "yield-invalid", fmt.Sprintf("the %s client yielded %s, which %s supplied and the validator rejected at the delivery instant (step %d); the same bytes are held in local storage, where the validator rejects them too when the search starts (valid when stored, expired since) - neither copy may enter the search",
+				w.cfg.Variant, c04Short(val), w.u.Name(invalid.Peer), invalid.Step)
+		}
 		return "yield-expired-local", fmt.Sprintf("the %s client yielded the locally stored record %s, which the validator rejects when the search starts (it was valid when stored): the local record enters the search without re-validation%s",
 			w.cfg.Variant, c04Short(val), c04LocalSite(w.cfg.Variant))
 	}
@@ -686,6 +729,8 @@ func (w *c04World) check() {
 			// the harness validator, at the very instant the value was received
 			if rule, detail := w.provenance(e.Val, e.Step); rule == "yield-expired-local" {
 				s.Violate(rule, "%s", detail)
+			} else if rule == "yield-invalid" {
+				s.Violate(rule, "SearchValue value #%d is rejected by the validator at the instant it was received (t=%v: %v): %s", i, e.At, e.VErr, detail)
 			} else {
 				s.Violate("yield-invalid", "SearchValue value #%d %s is rejected by the validator for %q at the instant it was received (t=%v): %v", i, c04Short(e.Val), c.Key, e.At, e.VErr)
 			}
@@ -721,6 +766,9 @@ func (w *c04World) check() {
 	if w.localStored {
 		if w.localValidAtStart {
 			s.Count("probe_local_valid")
+			if w.val.Validate(c.Key, w.localVal) != nil {
+				s.Count("probe_local_expired_midsearch")
+			}
 		} else {
 			s.Count("probe_local_expired")
 		}
